@@ -34,7 +34,7 @@ class Contract:
                  invariants=None, serves=(), trusted=False, module=None, locals=None,
                  inline=False, note='', cut_before=None, kwparams=None, pure=False,
                  effects_exc=(), vararg=None, assume_after=None, abstract=None,
-                 ghost_in_body=None, observe=(), generator=False, defaults=None, kwarg=None, kwarg_keys=(), exc_fields=None, ghost_before=None, raises_exact=True):
+                 ghost_in_body=None, observe=(), generator=False, defaults=None, kwarg=None, kwarg_keys=(), exc_fields=None, ghost_before=None, raises_exact=True, reads=None):
         self.name = name
         self.params = dict(params or {})
         self.returns = returns
@@ -62,6 +62,7 @@ class Contract:
         self.observe = list(observe)           # spec expressions evaluated under a counter-model (for replay)
         self.generator = generator
         self.exc_fields = dict(exc_fields or {})
+        self.reads = reads        # heap fields a pure function depends on: None = unknown, () = none
         self.raises_exact = raises_exact   # conditional raises clauses are 'iff' (else only 'raises => cond')
         self.ghost_before = dict(ghost_before or {})   # {stmt source prefix: ghost statements run before it}
         self.kwarg, self.kwarg_keys = kwarg, list(kwarg_keys)
